@@ -1,5 +1,6 @@
 import Spine.Update
 import Spine.Store
+import Spine.StoreF
 import Spine.SpecKV
 /-! Line-protocol driver of the update engine model (`Spine.updateList`, `Spine.updateStore`) and of the
     Lean twin of the SPEC (`Spine.SpecKV`).
@@ -10,7 +11,10 @@ import Spine.SpecKV
     store r=… p=… old=… new=… fp=… fd=…   → ok=<0|1> store=<items> | panic <site>     (spine.FunctionData.UpdateData)
     kv old=<items> new=<items> fp=<filter> fd=<filter>
         → na <reason> | kv <items>          (Spec.KV.apply on well-formed input, as a key-ordered list)
-    reset → reset (forgets the shape)
+    cfg <mergeStrict> <selNilPanics> <emptySelPanics> <inplaceAltersFlag>  (0|1 each) → cfg-ok
+        selects the member of the engine family (`Spine.UpdateF`); default = all 1 = the code as written
+        (`updateListF_asWritten`); the harness probes the flags on the tree under test
+    reset → reset (forgets the shape, keeps the member)
 
     items: `.` = empty list, `;` between items, `,` between fields, `-` = absent field.
     filter: `N` = nil, `E` = present without selector and elements, `F:<sel|N>:<el|N>`. -/
@@ -58,13 +62,13 @@ def parseShape : List String → Option Shape
     pure { n := n, keys := keys, flag := parseOpt flag, selMap := parseIdxList selmap, elN := eln, elMap := parseIdxList elmap }
   | _ => none
 
-def doUpd (sh : Shape) : List String → Option String
+def doUpd (c : UCfg) (sh : Shape) : List String → Option String
   | [r, p, old, nw, fp, fd] => do
     let r ← arg "r" r; let p ← arg "p" p
     let old ← arg "old" old; let nw ← arg "new" nw
     let fp ← parseFilter (← arg "fp" fp); let fd ← parseFilter (← arg "fd" fd)
     let ex := parseList old
-    match updateList sh (r == "1") ex (parseList nw) fp fd with
+    match updateListF c sh (r == "1") ex (parseList nw) fp fd with
     | .panic s => pure ("panic " ++ s)
     | .ok res =>
       let store := if res.ok && p == "1" then res.out else res.inplace
@@ -73,13 +77,13 @@ def doUpd (sh : Shape) : List String → Option String
 
 /-- spine.FunctionData.UpdateData: no filter at all and persisting ⇒ the data is replaced by what was
     received; otherwise the per-type UpdateList (`updateStore`) -/
-def doStore (sh : Shape) : List String → Option String
+def doStore (c : UCfg) (sh : Shape) : List String → Option String
   | [r, p, old, nw, fp, fd] => do
     let r ← arg "r" r; let p ← arg "p" p
     let old ← arg "old" old; let nw ← arg "new" nw
     let fpS ← arg "fp" fp; let fdS ← arg "fd" fd
     let fp ← parseFilter fpS; let fd ← parseFilter fdS
-    match updateData sh (r == "1") (p == "1") (fpS == "N") (fdS == "N") (parseList old) (parseList nw) fp fd with
+    match updateDataF c sh (r == "1") (p == "1") (fpS == "N") (fdS == "N") (parseList old) (parseList nw) fp fd with
     | .panic s => pure ("panic " ++ s)
     | .ok (store, ok) => pure s!"ok={if ok then 1 else 0} store={showList store}"
   | _ => none
@@ -93,20 +97,24 @@ def doKV (sh : Shape) : List String → Option String
     | .ok kv => pure ("kv " ++ showList kv)
   | _ => none
 
-partial def loop (inp out : IO.FS.Stream) (sh : Option Shape) : IO Unit := do
+partial def loop (inp out : IO.FS.Stream) (c : UCfg) (sh : Option Shape) : IO Unit := do
   let line ← inp.getLine
   if line.isEmpty then out.flush; return ()
   let toks := (line.trimAscii.toString.splitOn " ").filter (· != "")
+  if let ["cfg", a, b, d, e] := toks then
+    if [a, b, d, e].all (fun x => x == "0" || x == "1") then
+      out.putStrLn "cfg-ok"; out.flush
+      return ← loop inp out { mergeStrict := a == "1", selNilPanics := b == "1", emptySelPanics := d == "1", inplaceAltersFlag := e == "1" } sh
   let (sh', ans) : Option Shape × String := match toks with
     | "shape" :: rest => match parseShape rest with
       | some s => (some s, "shape-ok")
       | none => (sh, "bad-op")
     | "upd" :: rest => match sh with
       | none => (sh, "no-shape")
-      | some s => (sh, (doUpd s rest).getD "bad-op")
+      | some s => (sh, (doUpd c s rest).getD "bad-op")
     | "store" :: rest => match sh with
       | none => (sh, "no-shape")
-      | some s => (sh, (doStore s rest).getD "bad-op")
+      | some s => (sh, (doStore c s rest).getD "bad-op")
     | "kv" :: rest => match sh with
       | none => (sh, "no-shape")
       | some s => (sh, (doKV s rest).getD "bad-op")
@@ -114,6 +122,6 @@ partial def loop (inp out : IO.FS.Stream) (sh : Option Shape) : IO Unit := do
     | _ => (sh, "bad-op")
   out.putStrLn ans
   out.flush
-  loop inp out sh'
+  loop inp out c sh'
 
-def main : IO Unit := do loop (← IO.getStdin) (← IO.getStdout) none
+def main : IO Unit := do loop (← IO.getStdin) (← IO.getStdout) .asWritten none
